@@ -219,3 +219,47 @@ def on_all_paths(body, bb, start=0):
 
 def in_loop(body, bb):
     return bool(body.loops_of(bb))
+
+
+def def_table(body, local, _seen=None):
+    """leaf definitions of a local: [(bb, value term)], following plain copies/moves of multiply-defined locals"""
+    _seen = _seen or set()
+    if local in _seen:
+        return []
+    _seen = _seen | {local}
+    out = []
+    for (bb, si, pr, kind, payload) in body.defs.get(local, []):
+        if pr:
+            out.append((bb, ("unknown", "partial-assign")))
+            continue
+        if kind == "rv" and payload["k"] == "use" and payload["o"]["k"] in ("copy", "move") and not payload["o"]["p"]["pr"]:
+            src = payload["o"]["p"]["l"]
+            if len(body.defs.get(src, [])) > 1:
+                out.extend(def_table(body, src, _seen))
+                continue
+        if kind == "rv":
+            out.append((bb, body.val_rvalue(payload, (), (bb, si))))
+        elif kind == "call":
+            out.append((bb, body.val_call(payload, (), bb)))
+        else:
+            out.append((bb, ("unknown", kind)))
+    return out
+
+
+def ret_table(body, names=None):
+    """[(guard DNF, value)] for the return place"""
+    return [(block_guard(body, bb, names), v) for (bb, v) in def_table(body, 0)]
+
+
+def variant_of_guard(g, subject="arg1"):
+    """if the DNF is a single conjunction with exactly one atom `is(subject; V)` return [V...]"""
+    if g is None or len(g) != 1:
+        return None
+    atoms = [a for a in g[0]]
+    if len(atoms) != 1:
+        return None
+    a = atoms[0]
+    pre = "is(%s; " % subject
+    if a.startswith(pre) and a.endswith(")"):
+        return a[len(pre):-1].split("|")
+    return None
